@@ -29,5 +29,5 @@ CONSTANTS
   AsImplemented_ZeroAverageNaN = TRUE
   AsImplemented_HugeAgePanics = TRUE
   Variant_StrictThreshold = FALSE
-INVARIANTS TypeOK JoinsOrdered PrefixExact PrefixNamesSharers SimilarityBounded AsymSound AnalyzeCovers GroupsOnlyByAnalysis SuspectedIffMember GroupCountBounded ClearEmpties CleanupOnlyOld RecordsAreHistory
+INVARIANTS TypeOK JoinsOrdered PrefixExact PrefixNamesSharers SimilarityBounded AsymSound AnalyzeCovers GroupsOnlyByAnalysis SuspectedIffMember GroupCountBounded ClearEmpties CleanupOnlyOld RecordsWithinWindow
 CHECK_DEADLOCK FALSE
